@@ -111,6 +111,11 @@ var bodyRemoving = map[string]bool{"rmparaat": true, "rmelemat": true}
 
 func genCase(t *rapid.T) Case {
 	c := Case{Pkg: foreign.Gen(t), OpenFile: rapid.Bool().Draw(t, "openfile"), SaveFile: rapid.Bool().Draw(t, "savefile")}
+	// inline OMML formulas between the runs of some paragraphs (a sentence with a formula in it): the text
+	// carried by the runs next to a formula is body text like any other
+	if rapid.SampledFrom([]bool{false, true, false}).Draw(t, "math") {
+		foreign.AddMath(t, &c.Pkg)
+	}
 	if rapid.SampledFrom([]bool{false, true, true, false, true}).Draw(t, "edits") { // empty in 40 % of the cases
 		c.Ops = cfg.History(t, 1, kit.Scale(8, 14))
 		if rapid.IntRange(0, 2).Draw(t, "imgtail") == 0 { // several pictures in a row: the image counter matters
@@ -127,6 +132,23 @@ func genCase(t *rapid.T) Case {
 			o := ops.Op{K: rapid.SampledFrom(lookupKinds).Draw(t, "lookup"), S: []string{rapid.SampledFrom(cfg.StyleIDs).Draw(t, "lookupid")}}
 			at := rapid.IntRange(0, len(c.Ops)).Draw(t, "lookupat")
 			c.Ops = append(c.Ops[:at], append([]ops.Op{o}, c.Ops[at:]...)...)
+		}
+	}
+	// the package brings header/footer parts of its own (named header<N>.xml / footer<N>.xml like the library's): set a
+	// header or footer of some kind after opening, in a third of these cases with the package's header/footer
+	// relationships spelled in another legal way than the bare file name
+	if c.Pkg.Has(foreign.FHeaderFooter) && rapid.SampledFrom([]bool{true, false, false}).Draw(t, "hfextra") {
+		if spell := rapid.SampledFrom([]string{"", "", "/word/", "./"}).Draw(t, "hfspell"); spell != "" {
+			for i, r := range c.Pkg.DocRels {
+				if (r.Type == foreign.RelHeader || r.Type == foreign.RelFooter) && !strings.Contains(r.Target, "/") {
+					c.Pkg.DocRels[i].Target = spell + r.Target
+				}
+			}
+		}
+		n := rapid.IntRange(1, 2).Draw(t, "nhfextra")
+		for i := 0; i < n; i++ {
+			k := rapid.SampledFrom([]string{"header", "footer"}).Draw(t, "hfextrakind")
+			c.Ops = append(c.Ops, ops.Op{K: k, I: []int{rapid.IntRange(0, 2).Draw(t, "hfextratype")}, S: []string{"set after open"}})
 		}
 	}
 	// the package has image<K> media that the main part does not relate to, numbered above the main part's own:
@@ -264,11 +286,17 @@ func run(c Case) *kit.Result {
 	dir, _ := os.MkdirTemp(kit.Scratch, "c04-")
 	defer os.RemoveAll(dir)
 
-	feats := c.Pkg.Features()
+	feats := append(c.Pkg.Features(), c.Pkg.MathFeatures()...)
 	for _, f := range feats {
 		res.Label("pkg:" + f)
 	}
-	pb := c.Pkg.Bytes()
+	for _, r := range c.Pkg.DocRels {
+		if strings.HasPrefix(r.Target, "./") {
+			res.Label("pkg:rel:dot-slash-target")
+			break
+		}
+	}
+	pb := c.Pkg.BytesMath() // == Bytes() for a package without formulas
 	P, err := opc.Read(pb)
 	if err != nil || P.CTErr != nil {
 		res.Fail("C04.gen", "generated package unreadable by the oracle's reader: %v %v", err, P)
@@ -436,6 +464,9 @@ func run(c Case) *kit.Result {
 			res.Label("edits:style-lookup")
 			break
 		}
+	}
+	if c.Pkg.Has(foreign.FHeaderFooter) && hasOp(c, "header", "footer", "headerpn", "footerpn", "fheader", "ffooter") {
+		res.Label("edits:header-footer-set-on-package-with-own")
 	}
 
 	// ---- N1: parts outside the regenerated set are written back byte for byte under the same name
@@ -662,7 +693,7 @@ func lostHint(p foreign.Package, after string) string {
 func TestC04(t *testing.T) {
 	kit.Main(t, kit.Spec[Case]{
 		ID: "C04", Level: "exploration",
-		Rule: "a generated foreign package (independent writer: namespace prefixes, extra parts with own relationship parts, external relationships, id shapes, media names, nested runs, multi-w:t runs, tables, section breaks) x an edit history between Open/OpenFromMemory and Save/ToBytes: none (about 20 %), or 1-8 (thorough 1-14) generated edit calls, optionally read-only style-manager lookups, and - when the package holds image<K> media that the main part does not relate to - pictures of the formats that a counter looking only at the main part would write under those names; " +
+		Rule: "a generated foreign package (independent writer: namespace prefixes, extra parts with own relationship parts, external relationships, id shapes, media names, nested runs, multi-w:t runs, tables, section breaks; in a third of the packages inline OMML formulas - m:oMath / m:oMathPara, one or two per paragraph, between the text runs or inside a run container, m: or another prefix declared on the document element or on the formula) x an edit history between Open/OpenFromMemory and Save/ToBytes: none (about 20 %), or 1-8 (thorough 1-14) generated edit calls, optionally read-only style-manager lookups, header/footer calls on packages that bring header/footer parts (their relationship targets also spelled /word/x or ./x), and - when the package holds image<K> media that the main part does not relate to - pictures of the formats that a counter looking only at the main part would write under those names; " +
 			"non-trivial = package has >= 2 extra parts and at least one of {external relationship, run nested in hyperlink/ins/smartTag/sdt, run with several w:t, media name the library would not choose, relationship ids that are not the dense rId1..N}; " +
 			"distinct = distinct (feature set of the package, sequence of (op kind, outcome), entry points)",
 		Gen: genCase, Run: run, Findings: findings, Fixed: fixedCases,
@@ -674,6 +705,8 @@ func TestC04(t *testing.T) {
 		},
 		MustSee: map[string]float64{"pkg:" + foreign.FExtRel: 0.05, "feat:nested-run": 0.05, "pkg:" + foreign.FMultiT: 0.05, "pkg:" + foreign.FMediaOddName: 0.05,
 			"feat:non-dense-ids": 0.05, "edits:some": 0.5, "feat:custom-prefix": 0.1, "edits:images-added": 0.1,
-			"pkg:" + foreign.FMediaOtherHighest: 0.15, "edits:images-added-below-other-parts-media": 0.1, "edits:style-lookup": 0.15, "op:pstyle": 0.02, "op:customstyle": 0.01},
+			"pkg:" + foreign.FMediaOtherHighest: 0.15, "edits:images-added-below-other-parts-media": 0.1, "edits:style-lookup": 0.15, "op:pstyle": 0.02, "op:customstyle": 0.01,
+			"pkg:" + foreign.FMathTopTextOne: 0.1, "pkg:" + foreign.FMathTextTwo: 0.03, "pkg:" + foreign.FMathOnly: 0.05, "pkg:" + foreign.FMathPara: 0.05,
+			"edits:header-footer-set-on-package-with-own": 0.1, "pkg:rel:dot-slash-target": 0.01},
 	})
 }
